@@ -42,3 +42,36 @@ Section WExec.
     | (s, j) :: t => match wstep nf s j st with Some st' => wexec nf t st' | None => None end
     end.
 End WExec.
+
+(* ------------------------------------------------------------------ initialize_cp: the initial state of the weights *)
+(* Every control-flow PATH of initialize_cp from its entry to a `return kt`, as the list of the statements on it that assign the CP tensor kt:
+     IFresh         kt = random_cp(..., normalise_factors=False)  /  kt = CPTensor((None, factors))      (weights: all ones)
+     IUser          kt = CPTensor(init)                                                                 (weights: whatever the caller supplied)
+     INormalize g   kt = cp_normalize(kt), g: inside an `if normalize_factors`
+     IFactors       kt.factors = ...                                                                    (the weights are not touched)
+   The harness enumerates the paths of the CURRENT source (ast) and Coq evaluates ipaths_ok on them. *)
+Inductive istmt := IFresh | IUser | INormalize (guarded : bool) | IFactors.
+(* abstract run with normalize_factors = False: are the weights at the end of the path known to be all ones? *)
+Fixpoint ipath_ones (known : bool) (p : list istmt) : bool :=
+  match p with
+  | [] => known
+  | IFresh :: t => ipath_ones true t
+  | IUser :: t => ipath_ones false t
+  | INormalize g :: t => ipath_ones (known && g) t
+  | IFactors :: t => ipath_ones known t
+  end.
+Definition ipaths_ok (ps : list (list istmt)) : bool := forallb (ipath_ones false) ps.
+Section IExec.
+  Variable K : Type.
+  Variable k1 : K.
+  Variable normalise : (nat -> K) -> (nat -> K).
+  (* concrete run: the weights of kt (None: kt is not bound yet); users: the weights the caller supplied, one entry per IUser statement *)
+  Fixpoint iexec (nf : bool) (p : list istmt) (users : list (nat -> K)) (w : option (nat -> K)) : option (nat -> K) :=
+    match p with
+    | [] => w
+    | IFresh :: t => iexec nf t users (Some (fun _ => k1))
+    | IUser :: t => iexec nf t (tl users) (Some (hd (fun _ => k1) users))
+    | INormalize g :: t => iexec nf t users (if nf || negb g then option_map normalise w else w)
+    | IFactors :: t => iexec nf t users w
+    end.
+End IExec.
